@@ -398,6 +398,7 @@ func (c *fctx) operand(fr *frame, v ssa.Value) val {
 func (c *fctx) fnConst(f *ssa.Function) string {
 	name := q("fn." + f.String())
 	c.S.declareOnce(fmt.Sprintf("(declare-const %s Fn)", name))
+	c.S.declareOnce(fmt.Sprintf("(assert (not (= %s nilFn)))", name))
 	return name
 }
 
@@ -503,6 +504,11 @@ func (c *fctx) closedHeapAxioms() []string {
 			if f := refFact(t, "(select "+h+" r!h)"); f != "" {
 				out = append(out, fmt.Sprintf("(assert (forall ((r!h Int)) (! %s :pattern ((select %s r!h)))))", f, h))
 			}
+		case strings.HasPrefix(k, "MH:"):
+			// the nil map has no entries
+			srt := c.regions[k]
+			ks := strings.TrimSuffix(strings.TrimPrefix(srt, "(Array Int (Array "), " Bool))")
+			out = append(out, fmt.Sprintf("(assert (forall ((k!h %s)) (! (not (select (select %s 0) k!h)) :pattern ((select (select %s 0) k!h)))))", ks, h, h))
 		case strings.HasPrefix(k, "E:"):
 			t = c.keyTypes[k]
 			if t == nil {
@@ -675,7 +681,7 @@ func (c *fctx) noteWrite(key, root, guard string, pos token.Pos, fr *frame, st *
 			}
 		}
 	}
-	if c.assignsOK != nil && !c.modeNoAssigns {
+	if c.assignsOK != nil && !c.modeNoAssigns && !strings.HasPrefix(key, "X:") {
 		if goal := c.assignsOK(key, root); goal != "" && goal != "true" {
 			name := "assigns@" + c.P.SrcLine(pos)
 			if fr != nil {
